@@ -461,6 +461,118 @@ def str_templates(tree: ast.Module) -> dict:
     return out
 
 
+# ---------------------------------------------------------------------------------------------- parse_vec_str / from_str
+def _nodoc(body: list[ast.stmt]) -> list[ast.stmt]:
+    return [s for s in body if not (isinstance(s, ast.Expr) and isinstance(s.value, ast.Constant) and isinstance(s.value.value, str))]
+
+
+def _parse_cfg(tree: ast.Module) -> dict:
+    fn = next((n for n in tree.body if isinstance(n, ast.FunctionDef) and n.name == 'parse_vec_str'), None)
+    if fn is None:
+        raise TranslateError('parse_vec_str not found')
+    params = [a.arg for a in fn.args.args]
+    if len(params) != 4 or fn.args.vararg or fn.args.kwarg or fn.args.kwonlyargs:
+        raise TranslateError('parse_vec_str: signature not (val, x, y, z)')
+    v, dx, dy, dz = params
+    defaults = f'return ({dx}, {dy}, {dz})'
+    body = _nodoc(fn.body)
+    cfg = {'strips_ws': False, 'opens': '', 'closes': '', 'splits_ws': False, 'uses_float': False, 'passthrough': False}
+    u = lambda n: ast.unparse(n)
+    i = 0
+    # 1. dispatch on the type of the argument: strings continue, vectors/angles are passed through, others give the defaults
+    if i < len(body) and isinstance(body[i], ast.If) and u(body[i].test) == f'isinstance({v}, str)':
+        st = body[i]
+        chain = []
+        cur: ast.stmt | None = st
+        while isinstance(cur, ast.If):
+            chain.append((u(cur.test), [u(x) for x in cur.body]))
+            if len(cur.orelse) == 1 and isinstance(cur.orelse[0], ast.If):
+                cur = cur.orelse[0]
+            else:
+                chain.append(('else', [u(x) for x in cur.orelse]))
+                cur = None
+        want = [(f'isinstance({v}, str)', ['pass']),
+                (f'isinstance({v}, VecBase)', [f'return ({v}.x, {v}.y, {v}.z)']),
+                (f'isinstance({v}, AngleBase)', [f'return ({v}.pitch, {v}.yaw, {v}.roll)']),
+                ('else', [defaults])]
+        if chain != want:
+            raise TranslateError(f'parse_vec_str: unrecognised type dispatch (line {st.lineno}): {chain}')
+        cfg['passthrough'] = True
+        i += 1
+    # 2. val = val.strip()
+    if i < len(body) and u(body[i]) == f'{v} = {v}.strip()':
+        cfg['strips_ws'] = True
+        i += 1
+    # 3./4. the bracket removals, in this order
+    for which, idx, sl in (('opens', '0', '1:'), ('closes', '-1', ':-1')):
+        if i < len(body) and isinstance(body[i], ast.If):
+            st = body[i]
+            t = st.test
+            ok = (isinstance(t, ast.BoolOp) and isinstance(t.op, ast.And) and len(t.values) == 2 and u(t.values[0]) == v
+                  and isinstance(t.values[1], ast.Compare) and len(t.values[1].ops) == 1 and isinstance(t.values[1].ops[0], ast.In)
+                  and u(t.values[1].left) == f'{v}[{idx}]' and isinstance(t.values[1].comparators[0], ast.Constant)
+                  and isinstance(t.values[1].comparators[0].value, str)
+                  and not st.orelse and len(st.body) == 1 and u(st.body[0]) == f'{v} = {v}[{sl}]')
+            if not ok:
+                raise TranslateError(f'parse_vec_str: unrecognised bracket statement (line {st.lineno})')
+            cfg[which] = t.values[1].comparators[0].value
+            i += 1
+    # 5. try: a, b, c = val.split()  except ValueError: return defaults
+    def is_try(st, body_pred):
+        return (isinstance(st, ast.Try) and len(st.body) == 1 and body_pred(st.body[0]) and not st.orelse and not st.finalbody
+                and len(st.handlers) == 1 and st.handlers[0].type is not None and u(st.handlers[0].type) == 'ValueError'
+                and [u(x) for x in st.handlers[0].body] == [defaults])
+    names: list[str] = []
+    def split_stmt(x):
+        if isinstance(x, ast.Assign) and len(x.targets) == 1 and isinstance(x.targets[0], ast.Tuple) and u(x.value) == f'{v}.split()' \
+                and all(isinstance(e, ast.Name) for e in x.targets[0].elts) and len(x.targets[0].elts) == 3:
+            names.extend(e.id for e in x.targets[0].elts)
+            return True
+        return False
+    if i < len(body) and is_try(body[i], split_stmt):
+        cfg['splits_ws'] = True
+        i += 1
+    else:
+        raise TranslateError('parse_vec_str: `try: a, b, c = val.split()` not found where expected')
+    # 6. try: return (float(a), float(b), float(c))  except ValueError: return defaults
+    def float_stmt(x):
+        return isinstance(x, ast.Return) and u(x.value) == '(' + ', '.join(f'float({n})' for n in names) + ')'
+    if i < len(body) and is_try(body[i], float_stmt):
+        cfg['uses_float'] = True
+        i += 1
+    if i != len(body):
+        raise TranslateError(f'parse_vec_str: unrecognised statement (line {body[i].lineno})')
+    return cfg
+
+
+def parse_cfg(tree: ast.Module) -> dict:
+    """Shape of parse_vec_str, or `recognised: False` (all flags off) when it is written in an unknown way."""
+    try:
+        cfg = _parse_cfg(tree)
+        cfg.update(recognised=True, reason='')
+    except TranslateError as e:
+        cfg = {'strips_ws': False, 'opens': '', 'closes': '', 'splits_ws': False, 'uses_float': False, 'passthrough': False,
+               'recognised': False, 'reason': str(e)}
+    # from_str of the vector and angle base classes: `a, b, c = Py_parse_vec_str(val, a, b, c); return cls(a, b, c)`
+    alias = any(isinstance(n, ast.Assign) and len(n.targets) == 1 and isinstance(n.targets[0], ast.Name)
+                and n.targets[0].id == 'Py_parse_vec_str' and isinstance(n.value, ast.Name) and n.value.id == 'parse_vec_str'
+                for n in tree.body)
+    for cname in ('VecBase', 'AngleBase'):
+        ok = False
+        c = next((c for c in tree.body if isinstance(c, ast.ClassDef) and c.name == cname), None)
+        f = next((f for f in (c.body if c else []) if isinstance(f, ast.FunctionDef) and f.name == 'from_str'), None)
+        if f is not None and _is_classmethod(f):
+            ps = [a.arg for a in f.args.args]
+            body = [ast.unparse(x) for x in _nodoc(f.body)]
+            if len(ps) == 5:
+                k, val, a, b, d = ps
+                callee = 'Py_parse_vec_str' if alias else 'parse_vec_str'
+                ok = body in ([f'{a}, {b}, {d} = {fn}({val}, {a}, {b}, {d})', f'return {k}({a}, {b}, {d})']
+                              for fn in {callee, 'parse_vec_str'})
+        cfg[f'{cname}.from_str'] = ok
+    return cfg
+
+
 # ---------------------------------------------------------------------------------------------- mutation census
 def _class_functions(tree: ast.Module) -> dict[str, list[ast.FunctionDef]]:
     """Methods per class, including those generated with exec(TEMPLATE.format(...)) inside the class body."""
@@ -637,6 +749,7 @@ def translate() -> tuple[str, dict]:
     creations, cinfo = angle_creations(tree)
     info.update(cinfo)
     cfg = format_cfg(tree)
+    pcfg = parse_cfg(tree)
     strs = str_templates(tree)
     muts = mutation_census(tree)
     meths = method_table(tree)
@@ -650,7 +763,7 @@ def translate() -> tuple[str, dict]:
     lines = [
         '(* GENERATED by translate/c05_sites.py from src/srctools/math.py. Do not edit. *)',
         'From Coq Require Import ZArith NArith List String.',
-        'From SV Require Import Num.Dec6 Num.AngleSites SM.FrozenOps.',
+        'From SV Require Import Num.Dec6 Num.AngleSites Num.VecText SM.FrozenOps.',
         'Import ListNotations.', 'Open Scope string_scope.',
         '(* every store to an _pitch/_yaw/_roll slot: (file:Class.function:slot, classification of the stored value) *)',
         'Definition angle_sites : list (string * rhs) := [',
@@ -667,13 +780,20 @@ def translate() -> tuple[str, dict]:
         f'Definition format_float_cfg : fmt_cfg := {{| adds_zero := {b(cfg["adds_zero"])}; places := {cfg["places"]}%N; '
         f'strips := {b(cfg["strips"])}; neg_zero_fix := {b(cfg["neg_zero_fix"])} |}}.',
         f'Definition str_uses_format_float : bool := {b(str_ok)}.',
+        '(* parse_vec_str and the from_str classmethods *)',
+        f'Definition parse_vec_recognised : bool := {b(pcfg["recognised"])}.',
+        f'Definition parse_vec_cfg : parse_cfg := {{| strips_ws := {b(pcfg["strips_ws"])}; opens := [{"; ".join(str(ord(ch)) for ch in pcfg["opens"])}]%N; '
+        f'closes := [{"; ".join(str(ord(ch)) for ch in pcfg["closes"])}]%N; splits_ws := {b(pcfg["splits_ws"])}; uses_float := {b(pcfg["uses_float"])} |}}.',
+        f'Definition parse_passes_objects_through : bool := {b(pcfg["passthrough"])}.',
+        f'Definition vec_from_str_uses_parse : bool := {b(pcfg["VecBase.from_str"])}.',
+        f'Definition angle_from_str_uses_parse : bool := {b(pcfg["AngleBase.from_str"])}.',
         '(* writes to objects that are not freshly created inside the method: (class, method, written object, what) *)',
         'Definition mut_events : list (string * string * origin * string) := [',
         ';\n'.join(f'  ({_s(c)}, {_s(m)}, {o}, {_s(w)})' for c, m, o, w, _ in muts),
         '].',
         '',
     ]
-    side = {'angle_sites': [list(s) for s in sites], 'angle_creations': [list(c) for c in creations], 'format_float': cfg, 'str_templates': strs,
+    side = {'angle_sites': [list(s) for s in sites], 'angle_creations': [list(c) for c in creations], 'format_float': cfg, 'parse_vec_str': pcfg, 'str_templates': strs,
             'mut_events': [list(m) for m in muts], 'n_methods': len(meths), **info,
             'digests': {'parse_vec_str': _digest(tree, 'parse_vec_str'), 'format_float': cfg['digest']}}
     return '\n'.join(lines), side
